@@ -20,7 +20,9 @@
 //!   reference reading of the PARSED tree (spec/RewritesNames.tla), not from the checker under test.
 //!
 //! `vh rewrite-break --in PROGRAMS.ndjson --out FILE --seed S --per-program K`
-//!   derives statically wrong programs (one injected type error each) from well-typed ones.
+//!   derives statically wrong programs (one injected static error each: a type error, an unknown member /
+//!   variable / class, or a genuine name clash — a binder given the name of an enclosing binder) from
+//!   well-typed ones.
 use crate::compile::module_ref;
 use crate::util::{arg, arg_or, flag, guarded, silence_panics, Rng};
 use samlang_ast::source::{annotation, expr, pattern, Module, Toplevel, TypeDefinition};
@@ -2388,6 +2390,31 @@ enum Break {
   NoSuchVariable(Location),
   /// a class name in an expression becomes a name nothing defines
   NoSuchClass(Location),
+  /// a binder and its uses (reference reading) take the name of an enclosing binder: a genuine name clash
+  NameClash(Vec<Location>, String),
+}
+
+/// binders that can be given the name of a binder whose scope encloses them (the language has no shadowing)
+fn clash_sites(heap: &Heap, parsed: &Module<()>, out: &mut Vec<Break>) {
+  let rn = reference_names(parsed);
+  let shorthand = shorthand_locs(parsed);
+  for b in 1..=rn.binders.len() {
+    let x = &rn.binders[b - 1];
+    if x.kind == BK::This || rn.clashing(b) || shorthand.contains(&x.loc) {
+      continue;
+    }
+    // the nearest enclosing binder with another name that is not `this`
+    let mut p = x.parent;
+    while p != 0 && (rn.binders[p - 1].kind == BK::This || rn.binders[p - 1].name == x.name) {
+      p = rn.binders[p - 1].parent;
+    }
+    if p == 0 {
+      continue;
+    }
+    let mut occ = vec![x.loc];
+    occ.extend((0..rn.uses.len()).filter(|u| rn.resolve(*u) == b).map(|u| rn.uses[u].loc));
+    out.push(Break::NameClash(occ, rn.binders[p - 1].name.as_str(heap).to_string()));
+  }
 }
 
 fn break_sites(e: &expr::E<T>, out: &mut Vec<Break>) {
@@ -2488,13 +2515,16 @@ pub fn break_main(args: &[String]) {
           }
         }
       }
+      let mut v = vec![];
+      clash_sites(&a.heap, &a.parsed[m], &mut v);
+      all.extend(v.into_iter().map(|b| (name.clone(), b)));
     }
     if all.is_empty() {
       continue;
     }
     for k in 0..per_program {
-      // balance the four kinds
-      let want = (k + rng.below(4)) % 4;
+      // balance the five kinds
+      let want = (k + rng.below(5)) % 5;
       let cands: Vec<&(String, Break)> = all
         .iter()
         .filter(|(_, b)| match b {
@@ -2502,23 +2532,27 @@ pub fn break_main(args: &[String]) {
           Break::NoSuchMember(_) => want == 1,
           Break::NoSuchVariable(_) => want == 2,
           Break::NoSuchClass(_) => want == 3,
+          Break::NameClash(..) => want == 4,
         })
         .collect();
       let (name, b) = if cands.is_empty() { rng.pick(&all) } else { *rng.pick(&cands) };
-      let (loc, text, label) = match b {
-        Break::IntToStr(l) => (l, "\"verifbad\"", "int-to-string"),
-        Break::NoSuchMember(l) => (l, "verifNoSuchMember", "no-such-member"),
-        Break::NoSuchVariable(l) => (l, "verifNoSuchVariable", "no-such-variable"),
-        Break::NoSuchClass(l) => (l, "VerifNoSuchClass", "no-such-class"),
+      let (locs, text, label): (Vec<Location>, &str, &str) = match b {
+        Break::IntToStr(l) => (vec![*l], "\"verifbad\"", "int-to-string"),
+        Break::NoSuchMember(l) => (vec![*l], "verifNoSuchMember", "no-such-member"),
+        Break::NoSuchVariable(l) => (vec![*l], "verifNoSuchVariable", "no-such-variable"),
+        Break::NoSuchClass(l) => (vec![*l], "VerifNoSuchClass", "no-such-class"),
+        Break::NameClash(ls, n) => (ls.clone(), n.as_str(), "name-clash"),
       };
+      let loc = &locs[0];
       let src = &sources[name];
       let ix = TextIndex::new(src);
-      let (s, e) = match ix.range(loc) {
-        Some(r) => r,
+      let edits: Option<Vec<Edit>> = locs.iter().map(|l| ix.range(l).map(|(s, e)| Edit { s, e, text: text.to_string() })).collect();
+      let new_text = match edits.and_then(|es| apply_edits(src, es)) {
+        Some(t) => t,
         None => continue,
       };
       let mut q = sources.clone();
-      q.insert(name.clone(), apply_edits(src, vec![Edit { s, e, text: text.to_string() }]).unwrap());
+      q.insert(name.clone(), new_text);
       let mut r = rec.clone();
       r["sources"] = json!(q);
       r["origin"] = json!(format!("{}+break:{}@{}:{}", rec["origin"].as_str().unwrap_or(""), label, name, loc_str(loc)));
